@@ -46,6 +46,7 @@ type world struct {
 	panicOpt bool
 	// Start calls invoked so far / invoked and not yet returned
 	startSeq, startsInFlight int
+	cancelledAt              []uint64 // steps at which a pending task left the counter without having run
 	// ghost of the number of pending tasks, a lower bound at every instant: +1 when an accepted Submit call has
 	// returned (the real increase happened inside the call), -1 when a task function has finished (the real decrease
 	// follows), and for a task that is cancelled by a shutdown -1 at the step that shutdown was invoked (the earliest
@@ -132,6 +133,7 @@ func (w *world) watch(p *workerpool.WorkerPool) {
 			} else {
 				// the task was cancelled (shutdown of a pool that cancels pending tasks)
 				w.s.Probe("task-cancelled-on-shutdown")
+				w.cancelledAt = append(w.cancelledAt, w.s.Tick())
 				at := w.shutdownInv
 				if at == 0 {
 					at = w.s.Tick()
@@ -261,6 +263,29 @@ func (w *world) finalChecks(p *workerpool.WorkerPool, cancelOK bool) {
 					s.Fail("conservation", "dropped-in-running-window", "Submit of %s lay entirely inside a running window [%d,%d] but the task was not accepted", sb.id, win.from, win.to)
 				}
 			}
+		}
+	}
+	// cancel-on-shutdown cancels pending tasks on shutdown: a task that leaves the pending state without having run
+	// while the pool is running and no Shutdown call can have taken effect (every Shutdown call either returned before
+	// the latest Start was invoked or was invoked after the cancellation) was simply lost
+	for _, x := range w.cancelledAt {
+		var win *window
+		for _, c := range w.windows {
+			if c.from < x && (win == nil || c.from > win.from) {
+				win = c
+			}
+		}
+		if win == nil {
+			continue
+		}
+		justified := false
+		for _, sh := range w.shuts {
+			if !(sh.ret != 0 && sh.ret < win.startInv) && sh.inv <= x {
+				justified = true
+			}
+		}
+		if !justified {
+			s.Fail("conservation", "cancelled-without-shutdown", "a pending task was cancelled at step %d although the pool had been started (Start invoked at %d, returned at %d) and no Shutdown call was invoked between that Start and the cancellation; Shutdown calls %v", x, win.startInv, win.from, fmtIvs(w.shuts))
 		}
 	}
 	if w.decr != w.accepted {
